@@ -18,7 +18,8 @@ Kernel entry (TOML [[kernel]]):
   out         generated module name (G_<out>.v)
   file, func  source file (relative to the repo) and qualified function name
   select      which expression:  assign:<target>#k | augassign:<target>#k |
-              if#k | while#k | return#k | ifexp / call arguments via "path"
+              if#k | while#k | return#k | count:<If|Return|...> | order:<A> << <B> | ncalls:<callee prefix> |
+              ifexp / call arguments via "path"
               (optional list of child selectors, see _descend)
   mode        "Z" | "Num"
   args        ["name:type", ...]   every free Python name must be listed
@@ -90,7 +91,45 @@ def select_expr(func, select):
         name = None
     else:
         name, _, k = rest.partition('#')
+    if kind == 'order':
+        # order:<A> << <B> : the boolean "the (unique) statement whose source text starts with A precedes the
+        # (unique) statement starting with B in the SAME statement list" (statement order / nesting as a fact)
+        a_txt, sep, b_txt = rest.partition(' << ')
+        if not sep or path:
+            raise TranslateError(f'selector {select!r}: expected order:<A> << <B>')
+        na = nb = 0
+        holds = False
+        line = func.lineno
+        for node in ast.walk(func):
+            for fld in ('body', 'orelse', 'finalbody'):
+                body = getattr(node, fld, None)
+                if not (isinstance(body, list) and body and isinstance(body[0], ast.stmt)):
+                    continue
+                ia = [i for i, st in enumerate(body) if ast.unparse(st).startswith(a_txt)]
+                ib = [i for i, st in enumerate(body) if ast.unparse(st).startswith(b_txt)]
+                na += len(ia)
+                nb += len(ib)
+                if ia and ib and ia[0] < ib[0]:
+                    holds = True
+                    line = body[ia[0]].lineno
+        if na != 1 or nb != 1:
+            raise TranslateError(f'selector {select!r}: {na} statement(s) start with A, {nb} with B (1 each expected)')
+        return ast.Constant(value=holds), line
+    if kind == 'ncalls':
+        # ncalls:<prefix> : the number of calls whose callee text starts with <prefix>
+        if path:
+            raise TranslateError(f'selector {select!r}: no path allowed')
+        n = sum(1 for node in ast.walk(func)
+                if isinstance(node, ast.Call) and ast.unparse(node.func).startswith(rest))
+        return ast.Constant(value=n), func.lineno
     k = int(k) if k else 0
+    if kind == 'count':
+        # count:<NodeType> = number of statements of that ast type (If, Return, While, For,
+        # Try, Raise) inside the function: pins "this is done unconditionally"
+        if name not in ('If', 'Return', 'While', 'For', 'Try', 'Raise', 'IfExp'):
+            raise TranslateError(f'selector {select!r}: unsupported node type')
+        n = sum(1 for node in ast.walk(func) if type(node).__name__ == name)
+        return ast.Constant(value=n), getattr(func, 'lineno', 0)
     hits = []
     for node in ast.walk(func):
         if kind == 'assign' and isinstance(node, ast.Assign):
